@@ -197,7 +197,9 @@ var c14ParamWords = []string{"id", "user_id", "access_hash", "title", "url", "ap
 var c14TrickyParams = []string{"type", "errors", "range", "default", "params", "err", "c", "ok", "resp", "reflect", "func",
 	"var", "map", "go", "select", "import", "package", "return", "struct", "interface", "const", "chan", "switch", "case",
 	// names which the generator's initialism / camel-case mapping could turn into a member every generated struct has
-	"crc", "flag_index", "string", "tl", "cRC", "flagIndex"}
+	"crc", "flag_index", "string", "tl", "cRC", "flagIndex",
+	// underscores that delimit nothing (valid TL identifiers): goify indexed the first letter of an empty word (D30)
+	"trail_", "dbl__us", "tail__x_"}
 var c14Prims = []string{"int", "long", "double", "string", "bytes", "Bool"}
 var c14DocWords = []string{"the", "user", "identifier", "of", "a", "chat", "see", "https://core.telegram.org/api/min", "**bold**",
 	"[link](x)", "flags.0?true", "Vector<int>", "=", ";", "#", "//", "@type", "смотри", "€", "…", "¹", "a\tb", "  wide"}
